@@ -1311,6 +1311,9 @@ mmx_rule_convslq (OrcCompiler *p, void *user, OrcInstruction *insn)
 
   orc_mmx_emit_movq (p, src, tmp);
   orc_mmx_emit_psrad_imm (p, 31, tmp);
+  if (src != dest) {
+    orc_mmx_emit_movq (p, src, dest);
+  }
   orc_mmx_emit_punpckldq (p, tmp, dest);
 }
 
